@@ -20,7 +20,7 @@ from .astutil import FUNC_TYPES, attr_chain, dotted
 from .effects import DELETED, EffectDomain, exc_info_of, is_generator
 from .generators import LazyGenerators
 
-CALLABLE_TAGS = ("func", "method", "boundmethod", "bound", "partial", "builtin", "listappend", "attrgetter", "itemgetter", "methodcaller", "classref", "ctorref", "userfn", "setmethod", "decoderfactory", "decodermethod", "strmethod", "dictmethod", "supermethod")
+CALLABLE_TAGS = ("func", "method", "boundmethod", "bound", "partial", "builtin", "listappend", "attrgetter", "itemgetter", "methodcaller", "classref", "ctorref", "userfn", "setmethod", "decoderfactory", "decodermethod", "strmethod", "dictmethod", "supermethod", "excclass")
 
 
 def is_inst(v):
@@ -805,6 +805,9 @@ class ObjectDomain(LazyGenerators, EffectDomain):
             # not a callable of the repository whose body will run: it receives (and the log records) what the lists / dicts hold now
             pos = [unbox_deep(v, st) for v in pos]
             kw = [(k, unbox_deep(v, st)) for k, v in kw]
+        if tag == "excclass" and not kw:
+            # an exception class held in a variable (self.skipException ...), called: an exception of that class with those arguments
+            return [val(("exc", fn[1], f"made in {fr.name}", tuple(unbox_deep(v, st) for v in pos)), st)]
         if tag == "builtin" and fn[1] in ("getattr", "setattr", "delattr", "hasattr") and not kw:
             got = self._attr_builtin(interp, fn[1], pos, st, fr)
             return got if got is not None else [val(TOP, st)]
@@ -1527,8 +1530,8 @@ class ObjectDomain(LazyGenerators, EffectDomain):
                 return out
             # self.x(...) where the attribute x of the analysed object holds a callable value (a callback given to the constructor, ...)
             ch = attr_chain(f_)
-            if fr.instance is None and ch and len(ch) == 2 and fr.selfname and ch[0] == fr.selfname and st.has(fr.self_key + "." + ch[1]):
-                held = st.get(fr.self_key + "." + ch[1])
+            if fr.instance is None and ch and len(ch) == 2 and fr.selfname and ch[0] == fr.selfname and (st.has(fr.self_key + "." + ch[1]) or isinstance(self.attrs.get("self." + ch[1]), tuple)):
+                held = st.get(fr.self_key + "." + ch[1]) if st.has(fr.self_key + "." + ch[1]) else self.attrs["self." + ch[1]]
                 if (isinstance(held, tuple) and held[:1] and held[0] in CALLABLE_TAGS + ("wobj",)) or is_inst(held):
                     out = []
                     for bad, pos, kw, s2 in self._call_args(interp, call, st, fr):
